@@ -260,6 +260,18 @@ class Discharger:
             if any(c[0] == 'a' and c[1][0] == 'is' and c[1][1][0] == 'get' and c[1][1][2] == k and path_of(c[1][1][1])[-1:] == ['users']
                    and (mentions(c[1][1][1], CHANNELS) or root_of(c[1][1][1])[0] == 'param') for c in conjuncts(e.pc)):
                 return 'D3:I2', 'a channel member is a registered user'
+            # elements of a local collection filled only from rank sets / member keys of channels
+            if k[0] == 'elem' and k[1][0] == 'local':
+                fills = [x for x in w.events if x.kind == 'local_mut' and x.data['local'] == k[1] and x.data['method'] in ('extend', 'insert', 'push')]
+                def chan_nicks(src):
+                    src = src[1] if src and src[0] == 'elem' else src
+                    if not src:
+                        return False
+                    if src[0] == 'some_of' and path_of(src[1])[-2:-1] == ['modes'] and mentions(src[1], CHANNELS):
+                        return True
+                    return src[0] == 'keys' and path_of(src[1])[-1:] == ['users'] and mentions(src[1], CHANNELS)
+                if fills and all(x.data['args'] and chan_nicks(x.data['args'][0]) for x in fills):
+                    return 'D3:I3', 'collected from rank sets / member maps of channels: members are registered users'
             # elements of a local set all of whose inserts were guarded by presence in the registry
             if k[0] == 'elem' and k[1][0] == 'local':
                 ins = [x for x in w.events if x.kind == 'local_mut' and x.data['local'] == k[1] and x.data['method'] in ('insert', 'push')]
